@@ -313,6 +313,16 @@ def run_driver(pid, drv, tier, seed, n=None, replay=None, tag=""):
 
 # ------------------------------------------------------------ coq evaluation
 
+def mem_available_gb():
+    try:
+        for l in open("/proc/meminfo"):
+            if l.startswith("MemAvailable:"):
+                return int(l.split()[1]) / 1048576.0
+    except OSError:
+        pass
+    return 1e9
+
+
 def eval_cases(pid, cases, shard=800, shard_bytes=120000):
     """cases: list of trace dicts having 'coq'. returns (mismatch_idx, specfail_idx, error)"""
     wd = os.path.join(WORK, pid)
@@ -337,9 +347,12 @@ def eval_cases(pid, cases, shard=800, shard_bytes=120000):
             f.write(src)
         procs.append((k, sh, subprocess.Popen(["timeout", "1500", "coqc", "-Q", os.path.join(COQ, "theories"), "Sdns", fn], cwd=wd,
                                               stdout=subprocess.PIPE, stderr=subprocess.STDOUT, text=True)))
-        # at most 12 in flight
-        while sum(1 for _, _, p in procs if p.poll() is None) >= 16:
+        # at most 16 in flight, and none started while the machine is short of memory (a shard needs ~0.5 GB;
+        # a coqc killed by the kernel's OOM killer is an infrastructure outcome that costs a re-run)
+        waited = 0.0
+        while sum(1 for _, _, p in procs if p.poll() is None) >= 16 or (mem_available_gb() < 3.0 and waited < 300 and any(p.poll() is None for _, _, p in procs)):
             time.sleep(0.05)
+            waited += 0.05
     mism, specf = [], []
     err = None
     for k, sh, p in procs:
@@ -347,7 +360,12 @@ def eval_cases(pid, cases, shard=800, shard_bytes=120000):
         if p.returncode != 0 and "Error" not in out:
             # killed from outside (memory pressure, a stray signal) or timed out without a Coq error:
             # an infrastructure outcome, not a verdict — evaluate that shard once more, alone
-            rc2, out2, _ = run(["timeout", "1500", "coqc", "-Q", os.path.join(COQ, "theories"), "Sdns", "cases_%d.v" % k], cwd=wd, timeout=1600)
+            rc2, out2 = 1, ""
+            for attempt in range(3):
+                rc2, out2, _ = run(["timeout", "1500", "coqc", "-Q", os.path.join(COQ, "theories"), "Sdns", "cases_%d.v" % k], cwd=wd, timeout=1600)
+                if rc2 == 0 or "Error" in out2:
+                    break
+                time.sleep(10 * (attempt + 1))  # killed again: let the memory pressure pass
             if rc2 == 0:
                 out = out2
                 p.returncode = 0
